@@ -20,9 +20,18 @@
    C02f_text_split_invariant       full: a text delivered in any number of non-empty pieces anywhere in the list gives the
                                    same result as in one piece, outside the lone-LF case (stated: no_lone_lf), which is a
                                    real exception (C02f_lone_lf_differs)
-   C02f_text_split_step, _run      the two-piece step and the n-piece run forms *)
-From Coq Require Import List NArith String.
-From Wbxml Require Import Model.TablesDefs Model.Tables Model.LangSelect Model.EncWbxml Model.XmlFront Model.XmlFrontEvents Model.XmlFrontCanonEvents.
+   C02f_text_split_step, _run      the two-piece step and the n-piece run forms
+   SINCE THE LF-HACK FIX (props/C02/LF-hack-fix.patch: a lone LF piece gets its CR only when the text before it does not end
+   with one) the exception is: under a vObject data type, a piece that is exactly one LF and does not follow a CR
+   (lone_lf_hack: a = [LF] and the text already there does not end with CR, or b = [LF] and a does not end with CR;
+   no_lone_lf / lf_after_cr for n pieces).  "a", LF, "b" vs "a\nb" is still an exception: that is the intended hack.
+   C02f_lone_lf_fixed              full: a piece ending with CR followed by a lone LF piece = the one text "...CR LF"
+   C02f_lone_lf_fixed_stored       ... which is stored as it is (exactly CR LF)
+   C02f_lone_lf_fixed_vcard, C02f_lone_lf_old_witness, C02f_cr_lf_one_event_untouched
+                                   "BEGIN:VCARD&#13;&#10;" (three pieces): CR LF with the fix, CR CR LF before it
+                                   (Model/XmlFrontLfOld.v keeps the old callback for the ties and this witness) *)
+From Coq Require Import List NArith String Bool.
+From Wbxml Require Import Model.TablesDefs Model.Tables Model.LangSelect Model.EncWbxml Model.XmlFront Model.XmlFrontEvents Model.XmlFrontCanonEvents Model.XmlFrontLfOld.
 From Wbxml Require Import Proofs.XmlFrontProofs Proofs.XmlFrontBalance Proofs.XmlFrontDataType Proofs.XmlFrontSplit Proofs.XmlFrontInverse Proofs.XmlFrontImage Proofs.XmlFrontShape Gen.TablesData.
 Import ListNotations.
 Local Open Scope N_scope.
@@ -207,3 +216,40 @@ Theorem C02f_lone_lf_differs :
   tree_from_xml main_table (fun _ => inr 104) [60] (lf_pre ++ [EvCharacters [65; 10]] ++ lf_post) true.
 Proof. exact lone_lf_differs. Qed.
 Print Assumptions C02f_lone_lf_differs.
+
+(* ---------------------------------------------------------------- the LF-hack fix *)
+
+Theorem C02f_lone_lf_fixed :
+  forall main sub input c a,
+  ends_cr a = true -> in_element c ->
+  step main sub input (step main sub input c (EvCharacters a)) (EvCharacters [10]) = step main sub input c (EvCharacters (a ++ [10])).
+Proof. exact lone_lf_after_cr. Qed.
+Print Assumptions C02f_lone_lf_fixed.
+
+Theorem C02f_lone_lf_fixed_stored :
+  forall main sub input c f up d a,
+  c_error c = WBXML_OK -> c_skip_lvl c = 0 -> c_spine c = f :: up -> syncml_data_type (f :: up) = Some d -> ends_cr a = true ->
+  step main sub input (step main sub input c (EvCharacters a)) (EvCharacters [10]) =
+  if dt_wants_cdata d && negb (is_cdata_frame f) && negb (first_kid_is_cdata f)
+  then set_spine c (store (mk_frame FCData []) (a ++ [10]) :: f :: up)
+  else set_spine c (store f (a ++ [10]) :: up).
+Proof. exact lone_lf_after_cr_stored. Qed.
+Print Assumptions C02f_lone_lf_fixed_stored.
+
+Theorem C02f_lone_lf_fixed_vcard :
+  tree_from_xml main_table (fun _ => inr 104) [60] (lf_pre ++ cr_lf_pieces ++ lf_post) true =
+  tree_from_xml main_table (fun _ => inr 104) [60] (lf_pre ++ [EvCharacters (bs "BEGIN:VCARD" ++ [13; 10])] ++ lf_post) true.
+Proof. exact lone_lf_fixed_vcard. Qed.
+Print Assumptions C02f_lone_lf_fixed_vcard.
+
+Theorem C02f_lone_lf_old_witness :
+  tree_from_xml_old main_table (fun _ => inr 104) [60] (lf_pre ++ cr_lf_pieces ++ lf_post) true =
+  tree_from_xml main_table (fun _ => inr 104) [60] (lf_pre ++ [EvCharacters (bs "BEGIN:VCARD" ++ [13; 13; 10])] ++ lf_post) true.
+Proof. exact lone_lf_old_witness. Qed.
+Print Assumptions C02f_lone_lf_old_witness.
+
+Theorem C02f_cr_lf_one_event_untouched :
+  tree_from_xml_old main_table (fun _ => inr 104) [60] (lf_pre ++ [EvCharacters (bs "BEGIN:VCARD" ++ [13; 10])] ++ lf_post) true =
+  tree_from_xml main_table (fun _ => inr 104) [60] (lf_pre ++ [EvCharacters (bs "BEGIN:VCARD" ++ [13; 10])] ++ lf_post) true.
+Proof. exact cr_lf_one_event_untouched. Qed.
+Print Assumptions C02f_cr_lf_one_event_untouched.
